@@ -319,6 +319,8 @@ func (le *luaEncoder) encodeTopLevel(writer io.Writer, node *CandidateNode) erro
 }
 
 func (le *luaEncoder) Encode(writer io.Writer, node *CandidateNode) error {
+	// an encode that failed half way leaves its nesting depth behind
+	le.indent = 0
 
 	if le.globals {
 		if node.Kind != MappingNode {
